@@ -35,7 +35,7 @@ def rule_core(ctx):
     for fn in fns:
         key = fn_key(fn)
         c = fn["crate"]
-        tr = Tracer(fn).run()
+        tr = Tracer(fn, inline=ctx.inliner(keep=("find_neighbors",))).run()
         ins = []
         for e in tr.events:
             if e.kind == "call" and e.name in QUEUE_INS and e.node.get("k") == "MethodCall":
@@ -43,7 +43,7 @@ def rule_core(ctx):
                 if "VecDeque<" in rt:
                     ins.append(e)
         if len(ins) < 2:
-            res.violate("%s : frontier-insertions" % key, "expected the seed insertion and the expansion insertion into the search queue, found %d (fail closed)" % len(ins), fn_loc(fn))
+            res.undecided("%s : frontier-insertions" % key, "expected the seed insertion and the expansion insertion into the search queue, found %d (fail closed)" % len(ins), fn_loc(fn))
         is_min = lambda a: "min_points" in a
         for i, e in enumerate(ins):
             inst = "%s : frontier insertion #%d `%s`" % (key, i, e.name)
@@ -52,7 +52,7 @@ def rule_core(ctx):
             # the count that matters is the one of the most recent neighbour query before the insertion
             prev = [x for x in tr.events if x.kind == "call" and x.name == "find_neighbors" and x.order < e.order]
             if not prev:
-                res.violate("%s : no-neighbour-query:#%d" % (key, i), "no neighbour query precedes the frontier insertion (fail closed)", fn_loc(fn, e.node["ln"]))
+                res.undecided("%s : no-neighbour-query:#%d" % (key, i), "no neighbour query precedes the frontier insertion (fail closed)", fn_loc(fn, e.node["ln"]))
                 continue
             qk = k(max(prev, key=lambda x: x.order).val)
             is_count = lambda a: qk in a
@@ -127,13 +127,21 @@ def rule_self(ctx):
         returned_counter = False
         if unconditional and first is not None:
             returned_counter = k(first).startswith("mutated:%s" % unconditional[0].lhs.split(":")[-1]) or unconditional[0].lhs.split(":")[-1] in k(first)
-        if unconditional and returned_counter:
+        whole_len = False
+        if first is not None:
+            ft = as_term(first)
+            inner = as_term(ft.args[0]) if ft is not None and ft.is_call("len") and ft.args else None
+            whole_len = inner is not None and inner.is_call("within_range")
+        if whole_len:
+            res.ok()
+            res.sample({"fn": key, "count": "len() of the whole range-query result"})
+        elif unconditional and returned_counter:
             res.ok()
             res.sample({"fn": key, "counter": unconditional[0].lhs, "incremented": "once per returned neighbour, unconditionally"})
         elif incs:
             res.violate("%s : conditional-count" % key, "the neighbour counter is only incremented under a condition (%s): the query point itself, or already-assigned neighbours, are not counted" % [g[1][:60] for g in incs[0].guards], fn_loc(fn, incs[0].node["ln"]))
         else:
-            res.violate("%s : no-count" % key, "no counter over the range-query result found (fail closed)", fn_loc(fn))
+            res.undecided("%s : no-count" % key, "no counter over the range-query result found (fail closed)", fn_loc(fn))
     return res.finish(1)
 
 
@@ -165,7 +173,7 @@ def rule_index(ctx):
         r = None
         res.instance("%s : index construction sites (%d)" % (sub, len(builds)))
         if not builds:
-            res.violate("%s : no-index-build" % sub, "no NearestNeighbour::from_batch call found (fail closed)")
+            res.undecided("%s : no-index-build" % sub, "no NearestNeighbour::from_batch call found (fail closed)")
         for fn, n in builds:
             r = Render(fn["crate"])
             recv = r.e(n["recv"])
@@ -319,7 +327,11 @@ def rule_once(ctx):
                 what = r.e(pcall["args"][0]).replace(".clone()", "")
                 inst = "%s : orderings.push(%s) #%d" % (key, what[:20], n_push)
                 res.instance(inst)
-                ins = [x for x in stmts if x.get("k") == "MethodCall" and x["name"] == "insert" and "processed" in r.e(x["recv"]) and r.e(x["args"][0]).startswith(what.strip("&") + ".index")]
+                # the "already listed" set is recognised by its type (a set of sample indices), not by its name
+                def is_index_set(n_):
+                    t = c.ty(peel_refs(n_).get("t")) or ""
+                    return "Set<usize" in t
+                ins = [x for x in stmts if x.get("k") == "MethodCall" and x["name"] == "insert" and is_index_set(x["recv"]) and x["args"] and r.e(x["args"][0]).startswith(what.strip("&") + ".index")]
                 if ins:
                     res.ok()
                 else:
